@@ -172,6 +172,44 @@ def run_random_branch(ctx, n, with_model=True):
                 ctx.violation(f"random branch: {out} with weights {ws}", {"weights": ws, "impl": out})
 
 
+def run_real_ids(ctx, n, with_model=True):
+    """ids as callers pass them (no substitution): every str is an id — the empty one too"""
+    import hashlib
+    from pyab_experiment.binning import binning
+    rng = ctx.rng
+    ids = ["", " ", "0", "a", "None", "é", "\x00", "user_1", "x" * 200] + [gen.rand_string(rng, 6) for _ in range(n)]
+    reqs, plan = [], []
+    for ident in ids:
+        npop = rng.choice([1, 2, 3, 8])
+        pop = ["p%d" % i for i in range(npop)]
+        ws = weights_for(rng, npop)
+        h = int.from_bytes(hashlib.md5(ident.encode("utf-8")).digest()[:4], "big")
+        for name, kw in (("weights", dict(weights=list(ws))), ("cum", dict(cum_weights=list(itertools.accumulate(ws)))), ("unweighted", {})):
+            plan.append((ident, pop, name, kw))
+            reqs.append(choicelib.model_choice_req(h, npop, kw.get("weights"), kw.get("cum_weights")))
+    answers = [None] * len(reqs)
+    if with_model and ctx.driver_ok:
+        try:
+            answers = common.run_driver_parallel(reqs, jobs=12)
+        except Exception as ex:  # noqa
+            ctx.obligation_breaks.append({"what": "model-driver-run", "detail": repr(ex)[:400]})
+    seen = {}
+    for (ident, pop, name, kw), ans in zip(plan, answers):
+        outs = [common.outcome_of(lambda: binning.deterministic_choice(ident, pop, **kw)) for _ in range(3)]
+        ctx.case(("realid", ident, name), True)
+        ctx.count("variant:real-id-" + name)
+        if outs[0] != outs[1] or outs[1] != outs[2]:
+            ctx.violation(f"the same id {ident!r} gives different results on repeated calls ({name}): {outs}", {"id": ident, "kw": repr(kw)[:200]})
+        if "g" not in outs[0] or outs[0]["g"].get("s") not in pop:
+            ctx.violation(f"id {ident!r}: result {outs[0]} is not an element of the population", {"id": ident})
+        seen.setdefault(ident, {})[name] = outs[0]
+        if ans is not None and choicelib.model_to_outcome(ans, pop) != outs[0]:
+            ctx.tie_break("choice-real-id", {"id": ident, "kw": repr(kw)[:200], "impl": outs[0], "model": choicelib.model_to_outcome(ans, pop)})
+    for ident, r in seen.items():
+        if r.get("weights") != r.get("cum"):
+            ctx.violation(f"id {ident!r}: weights and their running totals give different results", {"id": ident, "results": r})
+
+
 def run(ctx):
     n = N[ctx.tier]
     if ctx.obligation_breaks or ctx.tie_breaks:
@@ -182,9 +220,11 @@ def run(ctx):
                          "0, boundaries +-1ulp, 1-2^-53, and unpatched draws")
     ctx.assumptions.append("purity ('arguments are never modified') cannot be expressed in the functional model: checked by the tie only")
     run_contract(ctx, n)
+    run_real_ids(ctx, max(30, n // 8))
     run_random_branch(ctx, max(20, n // 8))
 
 
 def search(ctx):
     run_contract(ctx, 2500, with_model=False)
+    run_real_ids(ctx, 300, with_model=False)
     run_random_branch(ctx, 300, with_model=False)
